@@ -6,12 +6,15 @@ PROPS["C27"] = {
     "nontrivial": lambda c: c["input"].count(" ") >= 3,
     "rule": "c27.exhaustive: all pairs of sequences of length <= k over 3 symbols (k=4: 14 641 pairs quick; k=6: 1.19 M thorough); c27.random: texts of 0..13 (1/6: 15..54) lines, b independent or an edited copy of a (deletions, insertions, replacements, inserted runs of up to 19 fresh lines); per pair: the lcs edit script and the rendered unified diff parsed back into hunks",
     "modelled": "util/diff/diff.go lcs, trace, middle (with the shared buffer threaded through the recursion), chunk.merge, LineDiff's hunk builder (hunk.add with elision, writeTo) in structured form; strings.Split/Sprintf are replaced by line ids (harness maps them back)",
-    "partial": "totality of the model of trace/lcs (LcsFatal/LcsFuel never occur) is not proved: middle is proved to always find a snake (C27_middle_always_finds_a_snake), but not that its coordinates always pass trace's slice-bounds and no-progress checks; these outcomes are compared with the implementation on every generated pair",
+    "partial": "",
     "level_text": "Coq theorems, all pairs of sequences: every script accepted by script_ok turns a into b; whatever script the model of diff.lcs returns is accepted; no valid script is cheaper than |a|+|b|-2*LCS (L proved to be the length of a longest common subsequence; quadratic table proved equal); "
                   "and minimality of the algorithm itself (C27_script_minimal): whenever the model of lcs - prefix/suffix trimming, trace, the real Myers middle-snake search with its diagonal windows and the shared buffer threaded through the recursion, chunk merging - returns a script, its cost is exactly |a|+|b|-2*LCS(a,b). "
+                  "Totality (C27_lcs_total, C27_script_minimal_total): for every pair the model of lcs does return a script - middle always finds a snake, the split it returns lies inside the grid (no slice-bounds panic), "
+                  "is neither (0,0) nor (|a|,|b|) (trace's log.Fatalf is unreachable), and both sides of the split again have no common first/last element, so trace's documented precondition, established by the prefix/suffix trimming of lcs, "
+                  "is an invariant of the recursion (C27_middle_split_in_grid_progress_invariant, C27_trace_total); every recursive call strictly decreases |a|+|b|, so the model's fuel suffices. "
                   "Proved from the classical invariants: furthest-reaching points per round and diagonal (greedy lemma), non-aliasing of the two buffer halves, the forward/reverse overlap test finds a middle snake of an optimal path and cannot miss one (C27_middle_snake_is_optimal). "
                   "The faithful model is compared chunk for chunk with diff.lcs and hunk for hunk with LineDiff, and each implementation output is still checked for validity, minimal cost and hunk application.",
-    "level_note": "Trusted: Coq kernel, extraction, glue (the harness parses LineDiff's text back into hunks). Runs longer than 14 lines are elided by hunk.add by design (known finding). Not proved: that lcs never reaches log.Fatal / runs out of model fuel (checked per pair).",
+    "level_note": "Trusted: Coq kernel, extraction, glue (the harness parses LineDiff's text back into hunks). Runs longer than 14 lines are elided by hunk.add by design (known finding).",
     "technique": "Coq proof (script semantics, LCS theory, Myers' furthest-reaching invariants for the bidirectional search, optimal-split => minimal script) + per-output certificate + model correspondence",
     "assumptions": ["lines are compared through interned ids (as LineDiff does)"],
 }
